@@ -742,7 +742,8 @@ func (multi *MultiEpoch) processSlotTransactions(
 	gsfaReadersLoaded bool,
 ) error {
 
-	filterOutTxn := func(tx solana.Transaction, meta any) bool {
+	// matchesFilter reports whether the transaction satisfies the filter, i.e. whether it must be sent.
+	matchesFilter := func(tx solana.Transaction, meta any) bool {
 		if filter == nil {
 			return true
 		}
@@ -758,7 +759,7 @@ func (multi *MultiEpoch) processSlotTransactions(
 			}
 		}
 
-		if !gsfaReadersLoaded { // Only needed if gsfaReaders not loaded, otherwise handled in the main branch
+		if !gsfaReadersLoaded && len(filter.AccountInclude) > 0 { // Only needed if gsfaReaders not loaded, otherwise handled in the main branch
 			hasOne := false
 			for _, acc := range filter.AccountInclude {
 				pkey := solana.MustPublicKeyFromBase58(acc)
@@ -833,7 +834,7 @@ func (multi *MultiEpoch) processSlotTransactions(
 					return status.Errorf(codes.Internal, "Failed to parse transaction meta: %v", err)
 				}
 
-				if !filterOutTxn(*txn, meta) {
+				if matchesFilter(*txn, meta) {
 
 					txResp := new(old_faithful_grpc.TransactionResponse)
 					txResp.Transaction = new(old_faithful_grpc.Transaction)
@@ -949,7 +950,7 @@ func (multi *MultiEpoch) processSlotTransactions(
 							return
 						}
 
-						if !filterOutTxn(tx, meta) {
+						if matchesFilter(tx, meta) {
 							txResp := new(old_faithful_grpc.TransactionResponse)
 							txResp.Transaction = new(old_faithful_grpc.Transaction)
 							{
